@@ -42,6 +42,14 @@ impl Ctx {
     pub fn iface(&self, name: &str) -> &'static IfaceDesc {
         self.ifaces.iter().find(|i| i.name == name).copied().unwrap_or_else(|| panic!("interface {} not built", name))
     }
+    pub fn iface_opt(&self, name: &str) -> Option<&'static IfaceDesc> {
+        self.ifaces.iter().find(|i| i.name == name).copied()
+    }
+    /// The named interfaces that were built (some may be missing when the macro under test
+    /// rejected their crate; see ./check).
+    pub fn built(&self, names: &[&str]) -> Vec<&'static IfaceDesc> {
+        names.iter().filter_map(|n| self.iface_opt(n)).collect()
+    }
     pub fn random_ifaces(&self) -> Vec<&'static IfaceDesc> {
         self.ifaces.iter().filter(|i| i.name.starts_with('r')).copied().collect()
     }
